@@ -42,6 +42,10 @@ META = {
 ROOT_DW = 32
 
 
+class _Refused(Exception):
+    """a legal call was refused: the obligation is recorded, the program ends here"""
+
+
 class Res(wiring.Component):
     def __init__(self):
         super().__init__({})
@@ -119,6 +123,12 @@ def harness_for(cfg):
     top = 1 << aw
 
     def h(E):
+        try:
+            body(E)
+        except _Refused:
+            pass
+
+    def body(E):
         mm = MemoryMap(addr_width=aw, data_width=ROOT_DW, alignment=al)
         log = []            # the calls that SUCCEEDED, as replayable closures f(map) -> result
 
@@ -173,12 +183,21 @@ def harness_for(cfg):
                     hit = [x for x in rep if x[0] == ident]
                     E.prove(len(hit) == 1 and b_and(hit[0][1] == s, hit[0][2] == e), "reported range equals the range handed out")
 
+        def align(m, k):
+            """align_to with a legal (non-negative) alignment is never refused"""
+            try:
+                return m.align_to(k)
+            except (ValueError, TypeError):
+                E.observe("align-refused", k)
+                E.prove(False, "align_to() refuses a legal alignment")
+                raise _Refused()
+
         for n, tag in enumerate(seq):
             kd = KINDS[tag]
             before = snapshot()
             cur_before = align_up(cur, al)
             if kd["k"] == "align":
-                got = mm.align_to(kd["to"])
+                got = align(mm, kd["to"])
                 log.append(lambda m, k=kd["to"]: (m.align_to(k),))
                 cur = align_up(cur, max(kd["to"], al))
                 E.prove(got == cur, "align_to returns the first suitably aligned address at or after the cursor")
@@ -204,7 +223,7 @@ def harness_for(cfg):
                 except (ValueError, TypeError):
                     E.observe("raise")
                 same(before, snapshot(), "query results")
-                E.prove(mm.align_to(0) == cur_before, "failed call moved the placement cursor")
+                E.prove(align(mm, 0) == cur_before, "failed call moved the placement cursor")
                 continue
             addr = E.int(f"a{n}", 0, top + 2) if kd["addr"] else None
             # the name of a REFUSED call is used again by the next one (a refused call must not keep its name
@@ -243,7 +262,7 @@ def harness_for(cfg):
             except (ValueError, TypeError):
                 E.observe("raise")
                 same(before, snapshot(), "query results")
-                E.prove(mm.align_to(0) == cur_before, "failed call moved the placement cursor")
+                E.prove(align(mm, 0) == cur_before, "failed call moved the placement cursor")
                 E.prove(ref_out[0] == "raise", "a call is refused only because of an earlier REFUSED call (half-applied state)")
                 if kd["k"] == "win" and obj is not None:
                     # the map that was OFFERED as a window is untouched as well: still an ordinary, extensible map
@@ -282,8 +301,8 @@ def harness_for(cfg):
                     E.prove(False, "a map used as a window still accepts resources")
                 except ValueError:
                     pass
-        E.observe("cursor", mm.align_to(0))
-        E.prove(mm.align_to(0) == align_up(cur, al), "next implicit placement follows the last accepted item")
+        E.observe("cursor", align(mm, 0))
+        E.prove(align(mm, 0) == align_up(cur, al), "next implicit placement follows the last accepted item")
     return h
 
 
